@@ -96,6 +96,29 @@ def nxt(c: array[int, 1]) -> int:
     result("nxt", c[0])
     return c[0] % 2
 
+@guppy.struct
+class Inner:
+    log: array[int, 4]
+    n: int
+
+@guppy.struct
+class Acc:
+    inner: Inner
+    total: int
+
+@guppy
+def push(acc: Acc, v: int) -> int:
+    n = acc.inner.n
+    log = acc.inner.log
+    log[n % 4] = v
+    acc.inner = Inner(log, n + 1)
+    return n + 1
+
+@guppy
+def addret(ys: array[int, 3], i: int, v: int) -> int:
+    ys[i] += v
+    return ys[i]
+
 @guppy
 def qarr(qs: array[qubit, 3], i: int) -> None:
     flip(qs[i])
@@ -199,6 +222,49 @@ BODIES = {
     result("mm10", mm[1][0])
     result("mm11", mm[1][1])
 """,
+    # a borrowed struct whose callee replaces a non-copyable sub-struct holding a copyable leaf
+    "struct_replace_substruct": """
+    acc = Acc(Inner(array(0, 0, 0, 0), {r}), a)
+    k1 = push(acc, {v})
+    k2 = push(acc, b)
+    if p:
+        k2 = push(acc, k1 + k2)
+    result("k", k1 * 10 + k2)
+    result("n", acc.inner.n)
+    result("total", acc.total)
+    result("log", acc.inner.log)
+""",
+    # borrowing calls inside an array comprehension: the borrowed places must carry the updates out of the loop
+    "comprehension_borrow_array": """
+    xs = array(a, b, 1)
+    ks = array(addret(xs, i, {v} + i) for i in range(3))
+    result("ks", ks)
+    result("xs", xs)
+    addel(xs, {i}, 5)
+    result("xs2", xs)
+""",
+    "comprehension_borrow_struct": """
+    acc = Acc(Inner(array(0, 0, 0, 0), {r}), a)
+    ks = array(push(acc, {v} * (i + 1)) for i in range(3))
+    result("ks", ks)
+    result("n", acc.inner.n)
+    result("log", acc.inner.log)
+    k3 = push(acc, b)
+    result("k3", k3)
+    result("n2", acc.inner.n)
+    result("log2", acc.inner.log)
+    result("total", acc.total)
+""",
+    "comprehension_borrow_struct_field": """
+    s = S(array(a, 1, b), qubit(), {v})
+    ks = array(addret(s.xs, (i + {j}) % 3, s.n + i) for i in range(4))
+    flip(s.q)
+    result("ks", ks)
+    result("s.xs", s.xs)
+    result("s.n", s.n)
+    sxs, sq, sn = s.xs, s.q, s.n
+    result("m", measure(sq))
+""",
     "loop_borrow": """
     xs = array(a, b, 1)
     k = 0
@@ -262,7 +328,8 @@ def run(ctx):
     ctx.coverage.update({
         "programs": len(cases), "traces_validated_against_impl": validated,
         "evaluations": len(cases) * len(ARGS) * 3, "distinct_nontrivial": cnt["ok"],
-        "rule": "11 program shapes (borrowed variable / struct field / array element / nested borrow / loops / qubit arrays) "
+        "rule": "15 program shapes (borrowed variable / struct field / array element / nested borrow / loops / qubit arrays / "
+                "sub-struct replacement / borrowing calls inside array comprehensions) "
                 "x seeded parameters x 3 argument tuples x 3 node schedules; non-trivial = accepted and executed "
                 "(every shape mutates through at least one borrow)",
         "samples": samples, "outcomes": dict(cnt), "exhaustive": False,
